@@ -16,7 +16,9 @@ import sp_common as spc
 import tlc
 
 CH = {'a': 'a', 'amp': '&', 'eq': '=', 'quot': '"', 'apos': "'", 'lt': '<', 'gt': '>', 'pct': '%', 'plus': '+', 'space': ' ',
-      'nl': '\n', 'semi': ';', 'hash': '#', 'qm': '?', 'eacute': u'é', 'emoji': u'\U0001F600'}
+      'nl': '\n', 'semi': ';', 'hash': '#', 'qm': '?', 'eacute': u'é', 'emoji': u'\U0001F600',
+      # look-alikes of the escapes the bindings themselves use
+      'entamp': '&amp;', 'entlegacy': '&copy=1', 'entnum': '&#38;', 'pctseq': '%26', 'pctbad': '%zz'}
 B = {'redirect': env.BINDING_REDIRECT, 'post': env.BINDING_POST, 'soap': env.BINDING_SOAP,
      'artifact': 'urn:oasis:names:tc:SAML:2.0:bindings:HTTP-Artifact', 'paos': 'urn:oasis:names:tc:SAML:2.0:bindings:PAOS'}
 ARTIFACT = 'AAQAAMFbLinlXaCM+FIxiDwGOLAy2T71gbpO7ZhNzAgEANlB90ECfpNEVLg/=='
